@@ -19,6 +19,14 @@ class Prop:
     assumptions = []
     rule = ""
     judge_timeout = 3000
+    engine = "E0"
+    design_ref = "DESIGN.md section 6"
+    technique = "TLA+ specification model-checked with TLC + TLC trace validation of executions of the real code"
+    level_text = ""
+    level_note = ("Trusted: TLC; hashlib; the strict bencode decoder and hypothesis tables of vh/alpha.py "
+                  "(digests are named by table lookup, never judged in Python); collision-freeness of "
+                  "SHA-1/SHA-256 on generated contents. Bounded: scaled-world model checking (B=2) and "
+                  "boundary alphabets for the executed cases.")
 
     def mc(self, tier):
         return []
